@@ -25,6 +25,9 @@
 /*
  * Includes order: from local to global
  */
+#ifndef _GNU_SOURCE
+#define _GNU_SOURCE // for getutline_r()
+#endif
 #include "snoopy.h"
 #include "tsrm.h"
 
@@ -534,6 +537,70 @@ struct tm *   snoopy_tsrm_localtime_r (const time_t *timep, struct tm *result)
     pthread_mutex_lock(&snoopy_tsrm_threadRepo_mutex);
 
     retVal = localtime_r(timep, result);
+
+    // Mutex END
+    pthread_mutex_unlock(&snoopy_tsrm_threadRepo_mutex);
+
+    return retVal;
+}
+
+
+
+/*
+ * snoopy_tsrm_strftime()
+ *
+ * Description:
+ *     strftime() with the threadRepo mutex held, for the same reason as
+ *     snoopy_tsrm_localtime_r(): some conversions (%s via mktime(), %Z via
+ *     tzset()) take libc's timezone lock, which fork() does not reset.
+ *
+ * Params:
+ *     s, max, format, tm:   as strftime()
+ *
+ * Return:
+ *     size_t:   as strftime()
+ */
+size_t   snoopy_tsrm_strftime (char *s, size_t max, const char *format, const struct tm *tm)
+{
+    size_t   retVal;
+
+    // Mutex START
+    pthread_mutex_lock(&snoopy_tsrm_threadRepo_mutex);
+
+    retVal = strftime(s, max, format, tm);
+
+    // Mutex END
+    pthread_mutex_unlock(&snoopy_tsrm_threadRepo_mutex);
+
+    return retVal;
+}
+
+
+
+/*
+ * snoopy_tsrm_getutline()
+ *
+ * Description:
+ *     setutent() + getutline_r() + endutent() with the threadRepo mutex held.
+ *     libc guards its utmp state with an internal lock that fork() does not
+ *     reset either (see snoopy_tsrm_localtime_r()).
+ *
+ * Params:
+ *     line, ubuf, ubufp:   as getutline_r()
+ *
+ * Return:
+ *     int:   as getutline_r()
+ */
+int   snoopy_tsrm_getutline (const struct utmp *line, struct utmp *ubuf, struct utmp **ubufp)
+{
+    int   retVal;
+
+    // Mutex START
+    pthread_mutex_lock(&snoopy_tsrm_threadRepo_mutex);
+
+    setutent();
+    retVal = getutline_r(line, ubuf, ubufp);
+    endutent();
 
     // Mutex END
     pthread_mutex_unlock(&snoopy_tsrm_threadRepo_mutex);
